@@ -5,7 +5,8 @@ import eth_abi
 from vlib.coqrun import hexlit
 
 W = 2**256
-STRUCTS = "struct S:\n    a: uint256\n    b: Bytes[5]\n"
+STRUCTS = ("struct S:\n    a: uint256\n    b: Bytes[5]\n\nflag Fl:\n    A\n    B\n    C\n\n"
+           "interface Token:\n    def balanceOf(a: address) -> uint256: view\n\nstruct T:\n    a: Token\n    b: Bytes[5]\n")
 # name: (vyper type, coq wrapped ty, eth_abi component types of the wrapped tuple, sample values, bound-ish numbers)
 DYN = {
     "bytes5": ("Bytes[5]", "TTuple [TBytes 5]", ["bytes"], (b"abc",), [5]),
@@ -18,11 +19,23 @@ DYN = {
     "sarr": ("(bool, String[3])[2]", None, None, None, None),   # placeholder (not generated)
 }
 del DYN["sarr"]
+# session 3 (seeded change C12_m5): word-sized element / member types other than uintN inside dynamic return types
+A1, A2 = "0x" + "ff" * 20, "0x" + "00" * 19 + "01"
+DYN.update({
+    "darrtok": ("DynArray[Token, 2]", "TTuple [TDArr TAddress 2]", ["address[]"], ([A1, A2],), [2, 2**160 - 1]),
+    "darrfl": ("DynArray[Fl, 2]", "TTuple [TDArr (TFlag 3) 2]", ["uint256[]"], ([5, 7],), [2, 7]),
+    "darrdec": ("DynArray[decimal, 2]", "TTuple [TDArr TDecimal 2]", ["int168[]"], ([-(2**167), 2**167 - 1],), [2, 2**167 - 1, W - 2**167 - 1]),
+    "sttok": ("T", "TTuple [TTuple [TAddress; TBytes 5]]", ["(address,bytes)"], ((A1, b"xy"),), [5, 2**160 - 1]),
+    "tupb4": ("(bytes4, Bytes[5])", "TTuple [TBytesM 4; TBytes 5]", ["bytes4", "bytes"], (b"\x01\x02\x03\x04", b"xyz12"), [5, (0x01020304 << 224) + 1]),
+})
+RAW = {"darrtok": ["uint256[]"], "darrfl": ["uint256[]"], "darrdec": ["uint256[]"], "sttok": ["(uint256,bytes)"],
+       "tupb4": ["uint256", "bytes"]}
 DEFAULTS = {"bytes5": ('b"xy"', "VList [VBytes [120; 121]]"),
             "str7": ('"hi"', "VList [VBytes [104; 105]]"),
             "darr3": ("[1, 2]", "VList [VList [VInt 1; VInt 2]]")}
 MUTS = {"n": ("nonpayable", "Nonpayable"), "v": ("view", "ViewM"), "u": ("pure", "Pure")}
-SIZE_BOUND = {"bytes5": 96, "str7": 96, "darr3": 160, "darr8": 128, "tup": 128, "st": 160, "nest": 256}
+SIZE_BOUND = {"bytes5": 96, "str7": 96, "darr3": 160, "darr8": 128, "tup": 128, "st": 160, "nest": 256,
+              "darrtok": 128, "darrfl": 128, "darrdec": 128, "sttok": 160, "tupb4": 128}
 
 
 def iface_lines():
@@ -93,7 +106,7 @@ def corruptions(ty, rnd):
     # oversized returndata: the (valid) tail object is moved to position P at/around the declared size bound and the
     # top-level offset word is redirected to it (must revert as soon as the item leaves min(returndatasize, size_bound))
     sb = SIZE_BOUND[ty]
-    hw = 1 if ty == "tup" else 0                      # index of the head word holding the offset
+    hw = 1 if ty in ("tup", "tupb4") else 0                      # index of the head word holding the offset
     off = int.from_bytes(base[32 * hw:32 * hw + 32], "big")
     tail = base[off:]
     for P in sorted({sb - 64, sb - 32, sb, sb + 32, sb + 64, len(base), len(base) + 32}):
@@ -101,7 +114,7 @@ def corruptions(ty, rnd):
             continue
         out.append(("SEQ", [("CX", bytes(P - len(base)) + tail), ("CW", hw, P)]))
         # ... and with the length word of the moved object at the boundary values
-        if ty in ("bytes5", "str7", "darr3", "darr8"):
+        if ty in ("bytes5", "str7", "darr3", "darr8", "darrtok", "darrfl", "darrdec"):
             for ln in (0, bnds[0], bnds[0] + 1):
                 out.append(("SEQ", [("CX", bytes(P - len(base)) + tail), ("CW", hw, P), ("CW", P // 32, ln)]))
     return [c for c in out if c is not None]
@@ -169,6 +182,19 @@ def split(v):
 def in_bounds(ty, out_bytes):
     """property oracle on a successful caller result: decodes and respects the declared bounds"""
     _vt, _coq, comps, _vals, _b = DYN[ty]
+    if ty in RAW:
+        # read the words raw: every word-sized slot must hold a value of its type
+        try:
+            vals = eth_abi.decode(RAW[ty], out_bytes, strict=False)
+        except Exception as e:  # noqa
+            return f"caller output does not decode: {e}"
+        v = vals[0]
+        ok = {"darrtok": lambda: len(v) <= 2 and all(e < 2**160 for e in v),
+              "darrfl": lambda: len(v) <= 2 and all(e < 8 for e in v),
+              "darrdec": lambda: len(v) <= 2 and all(e < 2**167 or e >= W - 2**167 for e in v),
+              "sttok": lambda: v[0] < 2**160 and len(v[1]) <= 5,
+              "tupb4": lambda: v % 2**224 == 0 and len(vals[1]) <= 5}[ty]()
+        return None if ok else f"value outside the declared type: {vals!r}"
     try:
         vals = eth_abi.decode([c.replace('string', 'bytes') for c in comps], out_bytes, strict=False)
     except Exception as e:  # noqa
